@@ -121,7 +121,18 @@ def _for_value(E, s, it, st, fx):
         if not E.feasible(b):
             continue
         b.trace.append("loop%d body" % k)
-        for a in E.assign(s.target, item(i), b, fx):
+        it_val = item(i)
+        starts = []
+        if isinstance(it_val, list):           # kind alternatives for the element: [(value, [constraints], label)]
+            for j, (v, cons, label) in enumerate(it_val):
+                b2 = b.fork() if j < len(it_val) - 1 else b
+                b2.assume(*cons)
+                b2.trace.append("elem:" + label)
+                if E.feasible(b2):
+                    starts.extend(E.assign(s.target, v, b2, fx))
+        else:
+            starts = E.assign(s.target, it_val, b, fx)
+        for a in starts:
             if a.exc is not None:
                 outs.append(E._raise_out(a, s))
                 continue
